@@ -155,7 +155,7 @@ _add(
          "twin is compared bit-for-bit. One evaluation = one step or one delayed query; distinct = (synapse, dt, "
          "delay, tolerance, interpolation, query class, overbound setting, train, inplace, batch) abstractions.",
     required=["steps_checked", "queries_checked", "twin_comparisons", "queries.in", "queries.beyond", "queries.negative",
-              "queries.limit", "queries.band", "queries.snap", "clears"],
+              "queries.limit", "queries.band", "queries.snap", "clears", "component_reads_checked"],
     floor={"quick": 300, "thorough": 800},
     text="Held on every spike train and selector explored: the real synapses (float64) are stepped on generated trains, "
          "the reported current is compared with the closed-form impulse-response sum over the recorded inputs, delayed "
@@ -196,7 +196,7 @@ _add(
          "contracted with the weight with the forward output; lateral diagonal invariant after each of 4-14 random "
          "mutating operations (weight/delay assignment, updater application, clamp / normalise hooks, forward). "
          "distinct = geometry / shape-class abstractions.",
-    required=["forward_checks", "conv_geometries", "helper_checks", "lateral_diagonal_checks", "delayed_linear_cases"],
+    required=["forward_checks", "conv_geometries", "helper_checks", "lateral_diagonal_checks", "delayed_linear_cases", "initialiser_built_connections"],
     floor={"quick": 150, "thorough": 3000},
     exhaustive={"thorough": ["conv2d: all square inputs 3..9, C,F in 1..3, kernels 1..3 x 1..3, stride 1..3, padding 0..2, dilation 1..2 with non-empty output"]},
     text="Held on every input and geometry explored: the real connections (float64) are driven with arbitrary real "
@@ -336,7 +336,7 @@ _add(
          "and compare every output and the complete final state (all state-dict entries incl. extras and non-persistent "
          "buffers) exactly. One evaluation = one checkpoint position; distinct = (layer, trainer, reducer, classifier, "
          "target kind, position class, delay, in-place).",
-    required=["cloned_targets", "checkpoint_positions_checked", "restored_steps_compared", "final_states_compared"],
+    required=["cloned_targets", "checkpoint_positions_checked", "restored_steps_compared", "final_states_compared", "phase_mismatch_probes", "checkpoints_with_pending_updates"],
     floor={"quick": 20, "thorough": 120},
     shards={"quick": 8, "thorough": 32},
     exhaustive={"quick": ["every checkpoint position k in 0..T of each generated run"], "thorough": ["every checkpoint position k in 0..T of each generated run"]},
